@@ -22,6 +22,8 @@ func main() {
 	switch *fam {
 	case "c02":
 		famC02(g, o, *n, *thorough)
+	case "c03":
+		famC03(g, o, *n, *thorough)
 	default:
 		fmt.Fprintln(os.Stderr, "unknown family", *fam)
 		os.Exit(2)
